@@ -4,6 +4,7 @@ use darling::FromMeta;
 use heck::{ToPascalCase, ToSnakeCase};
 use proc_macro::{self, TokenStream};
 use quote::{quote, quote_spanned};
+use syn::ext::IdentExt;
 use syn::{
     parse_macro_input, spanned::Spanned, Attribute, Data, DataEnum, DataStruct, DeriveInput,
     Fields, Ident, Variant,
@@ -144,7 +145,7 @@ fn get_table_name(ident: &proc_macro2::Ident, attrs: Vec<Attribute>) -> Result<S
             IdenAttr::Rename(lit) => lit,
             _ => return Err(syn::Error::new_spanned(att, ErrorMsg::ContainerAttr)),
         },
-        None => ident.to_string().to_snake_case(),
+        None => ident.unraw().to_string().to_snake_case(),
     };
     Ok(table_name)
 }
@@ -310,15 +311,18 @@ pub fn enum_def(args: TokenStream, input: TokenStream) -> TokenStream {
         .map(|field| {
             let ident = field.ident.as_ref().unwrap();
             NamingHolder {
-                default: ident.clone(),
-                pascal: Ident::new(ident.to_string().to_pascal_case().as_str(), ident.span()),
+                default: ident.unraw(),
+                pascal: Ident::new(
+                    ident.unraw().to_string().to_pascal_case().as_str(),
+                    ident.span(),
+                ),
             }
         })
         .collect();
 
     let table_name = Ident::new(
         args.table_name
-            .unwrap_or_else(|| input.ident.to_string().to_snake_case())
+            .unwrap_or_else(|| input.ident.unraw().to_string().to_snake_case())
             .as_str(),
         input.ident.span(),
     );
